@@ -242,8 +242,7 @@ def replay_record(ctx, focus, doc):
     """Re-run a stored replay on the current tree; True iff the property's oracle passes."""
     inp = doc["input"]
     if "field_window" in inp.get("record", {}):
-        print("field-data replays are re-generated from the seed; run the check with VERIF_SEED=%s" % doc.get("seed"))
-        return True
+        return None   # field windows are re-generated from the seed (check.py re-runs the stream)
     r = inp["record"]
     rec = gen.Record(r["dt"], r["t0"], r["rain"], r["level"], set(r["removed"]), r["pre"], r["post"])
     res = C.run_case(ctx, rec, inp["s"], inp["j"], tz=inp.get("timezone", "UTC"))
